@@ -557,3 +557,67 @@ def c02_monitor(s, a, rt):
                     fails.append(f"C02: {ph} callback ran for an internal transition: {l}")
                     break
     return fails
+
+
+def c11_monitor(s, a, rt):
+    """C11 Spec on the implementation's observation: (i) construction / activation over a model that
+    holds a state produces no callback and no write; (ii) over a fresh model the first thing that
+    happens is the assignment of the start state's value followed by enter callbacks under
+    `__initial__` only, once; (iii) explicit re-activation of an activated machine does nothing."""
+    fails = []
+    cur = "-" if s.cur0 is None else eng.rp(eng.POOL[s.cur0])
+    want_start = None
+    if s.start is not None:
+        want_start = eng.rp(eng.POOL[s.start])
+    else:
+        init = [st for st in s.states if st.initial]
+        want_start = eng.rp(eng.POOL[init[0].val]) if init else None
+    pending_initial = False
+    for (entries, R) in split_ops(a):
+        if R[2] == "skipped":
+            continue
+        i = int(R[1])
+        op = s.ops[i]
+        kv = dict(p.split("=", 1) for p in R if "=" in p)
+        if op[0] in ("construct", "reconstruct"):
+            if cur != "-":
+                if entries:
+                    fails.append(f"C11: op {i} constructed over stored state {cur} but something ran: {entries[0]}")
+                if kv["cur"] != cur:
+                    fails.append(f"C11: op {i} construction changed the stored state {cur} -> {kv['cur']}")
+            else:
+                pending_initial = True
+        if op[0] == "activate" and cur != "-" and not pending_initial and entries:
+            fails.append(f"C11: op {i} re-activation ran something: {entries[0]}")
+        if pending_initial and entries:
+            # the initial block comes first
+            if not entries[0].startswith("T ") or (want_start is not None and entries[0] != f"T {want_start}"
+                                                   and R[2] == "ok"):
+                if not (R[2] == "err" and R[3] == "invalidstate"):
+                    fails.append(f"C11: op {i}: first entry after a fresh construction is {entries[0]}, expected T {want_start}")
+            j = 1
+            t0 = None
+            own = kv.get("tid", "-")
+            while j < len(entries) and entries[j].split(" ")[0] in ("B", "S", "E"):
+                p = entries[j].split(" ")
+                if own != "-" and int(p[1]) >= int(own):
+                    break  # already the block of the event this op sent
+                if t0 is None:
+                    t0 = p[1]
+                if p[1] != t0:
+                    break
+                if p[2] != "enter":
+                    fails.append(f"C11: op {i}: initial activation ran a {p[2]} callback: {entries[j]}")
+                    break
+                if p[0] == "B" and "ev=0" not in entries[j] and "ev=?" not in entries[j]:
+                    fails.append(f"C11: op {i}: initial enter callback saw event {entries[j]}")
+                    break
+                j += 1
+            pending_initial = False
+        if kv["cur"] != "-":
+            pending_initial = False
+        cur = kv["cur"]
+        for l in entries:
+            if l.startswith("B ") and " ev=0 " in l and l.split(" ")[2] != "enter":
+                fails.append(f"C11: non-enter callback under __initial__: {l}")
+    return fails
